@@ -70,6 +70,72 @@ def ens_write(I, env, res):
                   z3.BoolVal(a[1] is env["data"] and b[2] is env["data"]))
 
 
+# ---- JSON: one generic iteration of SymbolTable.serialize and of SymbolTable.deserialize
+
+
+def setup_ser(I):
+    key, value = I.make(TStr(), "key"), I.make(TObj(N.SymbolTableNode), "value")
+    fullname = I.make(TStr(), "fullname")
+    data = SDict([(SStr(z3.StringVal(".class")), SStr(z3.StringVal("SymbolTable")))])
+    I.ctx.assume(key.t != z3.StringVal(".class"))  # requires: symbol names are Python names, never the tag member
+    return {"args": [], "locals": {"key": key, "value": value, "fullname": fullname, "data": data}, "key": key, "value": value, "fullname": fullname, "data": data}
+
+
+def ens_ser(I, env, res):
+    """a kept symbol becomes the member `key` of the JSON object, holding value.serialize(fullname, key);
+    a skipped symbol adds nothing"""
+    ev = [e for e in I.ctx.events if e[0] == "SymbolTableNode.serialize"]
+    k = kept(env["key"], env["value"], I)
+    extra = [(kk, vv) for kk, vv in env["data"].entries[1:]]
+    if not ev:
+        return z3.And(z3.Not(k), z3.BoolVal(not extra))
+    if len(ev) != 1 or len(extra) != 1:
+        return z3.BoolVal(False)
+    e = ev[0]
+    kk, vv = extra[0]
+    return z3.And(k, kk.t == env["key"].t, z3.BoolVal(e[1] is env["value"] and vv is e[-1]), e[2].t == env["fullname"].t, e[3].t == env["key"].t)
+
+
+def ser_contract(I, args, kwargs):
+    tok = SOpaque("json(symbol)")
+    I.ctx.events.append(("SymbolTableNode.serialize",) + tuple(args) + (tok,))
+    return tok
+
+
+def setup_deser(I):
+    key = I.make(TStr(), "key")
+    value = SOpaque("json(symbol)")
+    st = SDict([])
+    return {"args": [], "locals": {"key": key, "value": value, "st": st}, "key": key, "value": value, "st": st}
+
+
+def deser_contract(I, args, kwargs):
+    o = I.make(TObj(N.SymbolTableNode), "decoded")
+    I.ctx.events.append(("SymbolTableNode.deserialize", args[-1], o))
+    return o
+
+
+def ens_deser(I, env, res):
+    """every member except ".class" becomes the entry `key` of the table, holding the decoded symbol"""
+    ev = [e for e in I.ctx.events if e[0] == "SymbolTableNode.deserialize"]
+    is_class = env["key"].t == z3.StringVal(".class")
+    ents = env["st"].entries
+    if not ev:
+        return z3.And(is_class, z3.BoolVal(not ents))
+    if len(ev) != 1 or len(ents) != 1:
+        return z3.BoolVal(False)
+    return z3.And(z3.Not(is_class), ents[0][0].t == env["key"].t, z3.BoolVal(ents[0][1] is ev[0][2] and ev[0][1] is env["value"]))
+
+
+def targets_json(tier):
+    return [
+        Target("json.nodes.SymbolTable.serialize.entry_iteration", "mypy.nodes:SymbolTable.serialize", setup_ser, loop_body=("for key, value in self.items()", None),
+               ensures=[("serializes-exactly-the-kept-entries", ens_ser)], raises=(), overrides={"mypy.nodes:SymbolTableNode.serialize": ser_contract}, field_types=FT),
+        Target("json.nodes.SymbolTable.deserialize.entry_iteration", "mypy.nodes:SymbolTable.deserialize", setup_deser, loop_body=("for key, value in data.items()", None),
+               ensures=[("decodes-every-member-but-the-class-tag", ens_deser)], raises=(), overrides={"mypy.nodes:SymbolTableNode.deserialize": deser_contract}, field_types=FT),
+    ]
+
+
 def targets(tier):
     ov = {"librt.internal:write_str": rec("write_str_bare"), "mypy.nodes:write_str_bare": rec("write_str_bare"), "mypy.cache:write_str_bare": rec("write_str_bare"),
           "mypy.nodes:SymbolTableNode.write": rec("SymbolTableNode.write")}
